@@ -36,6 +36,21 @@ def c19(run: Run):
     rules_c19.check(run, program(run), cyprogram(run))
 
 
+_SITES = {}
+
+
+def sites(run: Run):
+    from . import kernels
+    if run.repo not in _SITES:
+        _SITES[run.repo] = kernels.boundary_table(program(run), cyprogram(run))
+    return _SITES[run.repo]
+
+
+def c07(run: Run):
+    from . import rules_c07
+    rules_c07.check(run, program(run), cyprogram(run), sites(run))
+
+
 def c06(run: Run):
     from . import rules_c06
     rules_c06.check(run, program(run))
@@ -49,5 +64,6 @@ def c01(run: Run):
 CHECKS = {
     "C01": c01,
     "C06": c06,
+    "C07": c07,
     "C19": c19,
 }
